@@ -33,6 +33,12 @@ def setup_engine(seed=0):
     for k in (type(None), bool, int, float, str, bytes, list, tuple, dict, set, datetime.datetime, type, object):
         E.classes.cid(k)
     E.classes.open_bases = set([bb.Struct, bb.Union])
+    import spec.runtime as S
+
+    def m_re_valid(E, args, kw):
+        f = z3.Function('ReValid', z3.StringSort(), z3.BoolSort())
+        return E.bool_sv(f(Val.s(E.lift(args[0]))))
+    E.models[S.re_compile_ok] = m_re_valid
     install_spec_models(E)
     return E
 
@@ -358,7 +364,13 @@ class Verifier:
             exp_fn = con.__dict__.get('expected')
             goal = z3.BoolVal(True)
             if exp_fn is not None:
-                exp = eval_spec(E, exp_fn, list(argsv.values()))
+                # the expected outcome is a function of the pre-state
+                saved_heap = p.heap
+                p.heap = dict(p.heap0)
+                try:
+                    exp = eval_spec(E, exp_fn, list(argsv.values()))
+                finally:
+                    p.heap = saved_heap
                 if not isinstance(exp, I.SOutcome):
                     raise I.Unsupported('expected() did not return an outcome: %r' % (exp,))
                 if kind == 'return':
